@@ -8,32 +8,28 @@ Local Open Scope N_scope.
    Full strength: [wit_bounds_stmt as_written] — for every well-typed script, every context, every
    asset environment and both modes, a satisfaction returned by the satisfier model has at most
    max_witness_stack_count elements, max_witness_stack_size bytes and (pre-segwit)
-   max_script_sig_size scriptSig bytes. It is FALSE for the code as written, four independent ways
-   (each witness is a finding about /repo, see known_findings.txt): *)
-Theorem C09_wit_bounds_refuted_thresh : ~ wit_bounds_stmt as_written.
-Proof. exact wit_bounds_refuted_thresh. Qed.
-Print Assumptions C09_wit_bounds_refuted_thresh.
+   max_script_sig_size scriptSig bytes.
 
-Theorem C09_wit_bounds_refuted_dupif : ~ wit_bounds_stmt as_written.
-Proof. exact wit_bounds_refuted_dupif. Qed.
-Print Assumptions C09_wit_bounds_refuted_dupif.
+   THE CODE AS WRITTEN ([as_written]: /repo with 937818d4 thresh i<k, 1f19b621 d: +2 bytes/+1 item,
+   cce56f21 pk_h uncompressed 66, 556af94a and_v dissatisfaction figure). Proved for every script of
+   the computable class [ext_safe as_written c]: children whose dissatisfaction a parent's
+   satisfaction uses have a dissatisfaction figure (what the type system's `d` gives), thresh has
+   k <= n, an or_i branch without dissatisfaction figure is syntactically never dissatisfied by the
+   satisfier ([nostk]), multi_a only in Tap. Satisfaction AND (where a figure exists)
+   dissatisfaction are covered, for every asset environment, both modes.
+   PARTIAL: missing for full strength is [type_of m = ROk _ -> ext_safe as_written c m]; the class is
+   evaluated on every generated script of every run instead (evidence: theorem_class_coverage; all
+   of them are inside). *)
+Theorem C09_wit_bounds_code_partial :
+  forall c ke se mall rhs m,
+    senv_ok c se -> ksort_len_ok ke -> ext_safe as_written c m = true ->
+    bounded se (sat_data (ext_of c m)) (snd (sat_dissat ke se mall rhs m))
+    /\ dbounded se (dissat_data (ext_of c m)) (fst (sat_dissat ke se mall rhs m)).
+Proof. exact (wit_bounds_gen as_written). Qed.
+Print Assumptions C09_wit_bounds_code_partial.
 
-Theorem C09_wit_bounds_refuted_unc : ~ wit_bounds_stmt as_written.
-Proof. exact wit_bounds_refuted_unc. Qed.
-Print Assumptions C09_wit_bounds_refuted_unc.
-
-Theorem C09_wit_bounds_refuted_andv : ~ wit_bounds_stmt as_written.
-Proof. exact wit_bounds_refuted_andv. Qed.
-Print Assumptions C09_wit_bounds_refuted_andv.
-
-(* What IS true, for every rule set [fx] (the code as written or any subset of the four candidate
-   repairs), every script of the computable class [ext_safe fx c] (a construct whose rule is
-   defective is either repaired by [fx] or absent; children whose dissatisfaction a parent's
-   satisfaction uses have a dissatisfaction figure, which the type system's `d` gives; k <= n),
-   every asset environment, both modes: satisfaction and (where a figure exists) dissatisfaction
-   are covered. The class is evaluated on every generated script of a run (evidence:
-   theorem_class_coverage). Missing for full strength: [type_of m = ROk _ -> ext_safe all_fixed c m]
-   (d-typed => dissatisfaction figure) is checked per run, not proved. *)
+(* the same for EVERY rule set (any setting of the four switches): which switch a bound needs is
+   part of [ext_safe fx c] *)
 Theorem C09_wit_bounds_partial :
   forall fx c ke se mall rhs m,
     senv_ok c se -> ksort_len_ok ke -> ext_safe fx c m = true ->
@@ -52,6 +48,25 @@ Theorem C09_wit_bounds_root :
               /\ (se_tap se = false -> ssig_sum se l <= sd_ssig d).
 Proof. exact wit_bounds_root. Qed.
 Print Assumptions C09_wit_bounds_root.
+
+(* HISTORICAL — about the rule set [pre_fix] of the tree BEFORE the four fix commits, not about the
+   code that exists: the full-strength statement was false four independent ways. Kept because the
+   witnesses are the regression inputs of the check (corpus of harness/src/ext.rs). *)
+Theorem C09_hist_wit_bounds_refuted_thresh : ~ wit_bounds_stmt pre_fix.
+Proof. exact wit_bounds_refuted_thresh. Qed.
+Print Assumptions C09_hist_wit_bounds_refuted_thresh.
+
+Theorem C09_hist_wit_bounds_refuted_dupif : ~ wit_bounds_stmt pre_fix.
+Proof. exact wit_bounds_refuted_dupif. Qed.
+Print Assumptions C09_hist_wit_bounds_refuted_dupif.
+
+Theorem C09_hist_wit_bounds_refuted_unc : ~ wit_bounds_stmt pre_fix.
+Proof. exact wit_bounds_refuted_unc. Qed.
+Print Assumptions C09_hist_wit_bounds_refuted_unc.
+
+Theorem C09_hist_wit_bounds_refuted_andv : ~ wit_bounds_stmt pre_fix.
+Proof. exact wit_bounds_refuted_andv. Qed.
+Print Assumptions C09_hist_wit_bounds_refuted_andv.
 
 (* the arithmetic heart of the threshold rule, for all k and all child lists: with the first
    [quota] children (by decreasing sat - dissat) satisfied, the five-pass computation dominates
@@ -77,9 +92,9 @@ Theorem C09_desc_weight_partial :
 Proof. exact desc_weight_bound. Qed.
 Print Assumptions C09_desc_weight_partial.
 
-(* taproot: one leaf's formula covers a script-path spend through that leaf, and
-   Tr::max_weight_to_satisfy is at least every satisfiable leaf's formula. (The key-path spend is
-   NOT covered when a tree is present: finding tr:keyspend-not-counted.) *)
+(* taproot: one leaf's formula covers a script-path spend through that leaf;
+   Tr::max_weight_to_satisfy is at least every satisfiable leaf's formula and (since /repo
+   265ff19b) at least the key-path spend, whatever the tree. *)
 Theorem C09_tr_leaf_weight :
   forall se d l ssz depth,
     within se d l -> tr_measured se l ssz depth <= tr_leaf_weight depth ssz (sd_wcount d + 1) (sd_wsize d).
@@ -91,6 +106,10 @@ Theorem C09_tr_tree_weight :
     exists w, tr_tree_weight leaves = Some w /\ tr_leaf_weight d ssz el sz <= w.
 Proof. exact tr_tree_weight_ge. Qed.
 Print Assumptions C09_tr_tree_weight.
+Theorem C09_tr_tree_weight_keyspend :
+  forall leaves, exists w, tr_tree_weight leaves = Some w /\ tr_keyspend_weight <= w.
+Proof. exact tr_tree_weight_keyspend. Qed.
+Print Assumptions C09_tr_tree_weight_keyspend.
 
 (* ---- figures about the script itself ----
    static_ops is EXACTLY the number of opcodes above OP_16 of the encoded script (what consensus
@@ -118,8 +137,8 @@ Print Assumptions C09_pk_cost_is_size_partial.
    state as the Script semantics (so its counters describe the real execution), for all scripts,
    states and traces. NOT proved: executed multisig keys <= max_exec_op_count and stack depth <=
    max_witness_stack_count + max_exec_stack_count for every satisfaction; these are judged per run
-   on every satisfaction the implementation returns (sat engine | extracted exec_tr), which found
-   exec-stack:multi-num-pushes. *)
+   on every satisfaction the implementation returns (sat engine | extracted exec_tr); that oracle
+   found the multi and thresh exec-stack defects repaired by /repo 1919c6c7 and 0676c51a. *)
 Theorem C09_exec_tr_agrees_partial :
   forall e s st t,
     match exec_tr e s st t with
@@ -154,8 +173,8 @@ Print Assumptions C09_plan_taproot_exact.
 Example C09_nonvacuous :
   senv_ok cx_segwit se_key3 /\ ksort_len_ok ke0
   /\ ext_safe as_written cx_segwit (MOrD (MCheck (MPkK 3)) (MAndV (MVerify (MCheck (MPkK 1))) (MOlder 10))) = true
-  /\ ext_safe all_fixed cx_segwit w_thresh = true
-  /\ ext_safe as_written cx_segwit w_thresh = false
+  /\ ext_safe as_written cx_segwit w_thresh = true
+  /\ ext_safe pre_fix cx_segwit w_thresh = false
   /\ s_stack (snd (sat_dissat ke0 se_key3 false true (MOrD (MCheck (MPkK 3)) (MAndV (MVerify (MCheck (MPkK 1))) (MOlder 10)))))
      = WStack [PhSig 3].
 Proof. exact wit_bounds_nonvacuous. Qed.
